@@ -522,7 +522,12 @@ class Deriver:
                 self.poison_desc = f"bit-field member {name!r} wider than its {bits} bits"
                 raw = (1 << bits) + self.rng.randint(0, 3)
                 if not bf.shift:
-                    raw = (1 << (cur + bits))   # a bit outside the member's mask
+                    if cur > 0 and self.rng.random() < 0.5:
+                        # an in-range value with an extra bit BELOW the member's slot
+                        raw = (self.rand_int(0, (1 << bits) - 1) << cur) | (1 << self.rng.randrange(0, cur))
+                        self.poison_desc = f"un-shifted bit-field member {name!r} with a bit below its slot"
+                    else:
+                        raw = (1 << (cur + bits))   # a bit above the member's mask
                     vals[name] = raw
                     cur += bits
                     continue
@@ -722,6 +727,12 @@ def _ctx_kind(ctx):
     if isinstance(k, str):      # plain-data mode hands out member names
         k = HVKind[k]
     return k
+
+
+def _ctx_up_kind(ctx):
+    """From a field of a template that is an entry of a collection that is a member of the template defining `kind`:
+    entry template -> collection -> defining template."""
+    return _ctx_kind(ctx._._)
 
 
 def describe(spec, depth=0):
@@ -1059,6 +1070,19 @@ class ProgramGen:
         members["ad"] = se.ContextAdapter(_ctx_kind, se.U16, {
             HVKind.A: se.ExprAdapter(None, lambda x: x + 1, lambda x: x - 1),
             HVKind.B: se.BoolAdapter(), HVKind.C: se.ExprAdapter(None)})
-        if allow_greedy and rng.random() < 0.4:
+        tail_greedy = allow_greedy and rng.random() < 0.4
+        if rng.random() < 0.5:
+            # entries that look two context levels up (entry template -> collection -> this template)
+            row = se.Template({"n": se.U8, "v": se.ContextSwitch(_ctx_up_kind, {
+                HVKind.A: se.U16, HVKind.B: se.CStr(), se.MISSING: se.Vector3})})
+            form = rng.choice(["prefixed", "fixed", "greedy"] if tail_greedy else ["prefixed", "fixed"])
+            if form == "greedy":
+                members["rows"] = se.Collection(None, row)
+                tail_greedy = False
+            elif form == "fixed":
+                members["rows"] = se.Collection(rng.randint(1, 3), row)
+            else:
+                members["rows"] = se.Collection(rng.choice([se.U8, se.U16]), row)
+        if tail_greedy:
             members["tail"] = self.make(depth, allow_greedy=True)
         return se.Template(members, skip_missing=rng.random() < 0.5)
